@@ -263,6 +263,7 @@ type c16ReadCase struct {
 	items  []c16Item
 	sizes  []int
 	late   bool          // the reader starts only when the receive queue is full (or the script is exhausted)
+	lag    int           // > 0: before every Read the reader waits until this many messages are queued (capped at the queue depth + the one the loop holds), the script is exhausted or the loop has ended
 	guard  time.Duration // hang guard (default 30 s)
 }
 
@@ -361,6 +362,9 @@ func c16DoReads(c *c16ReadCase) ([]c16ReadOut, bool) {
 	go func() {
 		var outs []c16ReadOut
 		for _, m := range c.sizes {
+			if c.lag > 0 && hbc != nil {
+				c16AwaitLag(st, hbc, c.lag)
+			}
 			buf := make([]byte, m)
 			n, err := conn.Read(buf)
 			outs = append(outs, c16ReadOut{append([]byte(nil), buf[:n]...), c16ErrName(err)})
@@ -630,6 +634,24 @@ func c16ReadCorpus(out *vlib.Out) {
 		c16Pad(c, []int{3, 64, 1})
 		c16RunReadCase(out, c, true)
 		out.Count("corpus:receive-queue-full-before-reader")
+	}
+	// buffer ownership between recvLoop and Read (CJ.RecvBuf): the reader stays 1..70 messages behind the receive
+	// loop for the whole run (the queue holds recvChBufSize slices and the loop one more); every byte must be the
+	// peer's, in order.  Messages of different lengths, so that a recycled buffer shows as a wrong length as well.
+	for lag := 1; lag <= recvChBufSize+6; lag++ {
+		if vlib.Tier() != "thorough" && lag > 3 && lag < recvChBufSize-2 && lag%8 != 0 {
+			continue
+		}
+		c = &c16ReadCase{hbMode: true, maxMsg: 64, hb: hb, lag: lag}
+		for i := 0; i < 2*recvChBufSize+lag+9; i++ {
+			c.items = append(c.items, c16Item{mk(1+(i*5+lag)%7, byte(i+lag)), "-", false})
+			if i%37 == 36 {
+				c.items = append(c.items, c16Item{hb, "-", true})
+			}
+		}
+		c16Pad(c, []int{64})
+		c16RunReadCase(out, c, true)
+		out.Count("corpus:reader-lags-behind-receive-loop")
 	}
 	// the payload the filter works with comes out of validate(): none configured, and an empty one configured
 	for _, conf := range []string{"nil", "empty"} {
@@ -1296,4 +1318,36 @@ func c16HeartbeatSender(out *vlib.Out) {
 		}
 	}
 	out.Count("heartbeat-sender:ok")
+}
+
+// c16AwaitLag blocks the reader until `lag` messages are waiting for it: len(recvCh) counts the queued slices, one
+// more sits in the loop's blocked send once the queue is full (waited out by a short sleep).  Gives up when the
+// script is exhausted or the loop has ended, so that every message is read in the end.
+func c16AwaitLag(st *c16Stream, hbc *hbConn, lag int) {
+	want := lag
+	if want > cap(hbc.recvCh) {
+		want = cap(hbc.recvCh)
+	}
+	deadline := time.Now().Add(5 * time.Second)
+	for time.Now().Before(deadline) {
+		st.mu.Lock()
+		left := len(st.items)
+		st.mu.Unlock()
+		select {
+		case <-hbc.closed:
+			return
+		default:
+		}
+		if len(hbc.recvCh) >= want {
+			if lag > cap(hbc.recvCh) && left > 0 {
+				time.Sleep(200 * time.Microsecond) // the loop reads the next message and sits in its send
+			}
+			return
+		}
+		if left == 0 {
+			time.Sleep(100 * time.Microsecond) // the last message may still be on its way into the queue
+			return
+		}
+		time.Sleep(20 * time.Microsecond)
+	}
 }
